@@ -5,6 +5,11 @@ open Model
 open Sx
 open Sxlib_ir
 
+(* same reply as Sxlib_ir.formula_reply, through the pruned rendering to_cnf_f
+   (coq/FamFastFacts.v: to_cnf_f l = to_cnf l) *)
+let formula_reply (numvar : z) (irs : ir list) : sx =
+  L [of_z numvar; of_cnf (Model.to_cnf_f irs); of_opb (Model.to_opb irs)]
+
 let raises = L [A "raises"; Q "ValueError"]
 let to_adj = to_list to_zl
 let to_edges = to_list (to_pair to_z to_z)
